@@ -119,3 +119,33 @@ pub fn c05_aggregate_is_bound_to_its_scheme_tag(a: &AggregateSignature, data: &[
     let v = a.verify(data);
     assert(v is Ok ==> agg_sum_eq(agg_scheme(*a), data_pairs(data@), agg_point(*a)));
 }
+
+/// and so are multi-signatures: whatever an accumulated signature of scheme S accepts satisfies the
+/// verification equation under S's own tag and message form — a Basic multi-signature presented
+/// under the MessageAugmentation or ProofOfPossession label is checked against that label's tag
+pub fn c05_multi_signature_is_bound_to_its_scheme_tag(ms: &MultiSignature, pk: MultiPublicKey, msg: &[u8])
+{
+    let v = ms.verify(pk, msg);
+    assert(v is Ok ==> cv_eq(pk.0, msig_point(*ms), scheme_msg(msig_scheme(*ms), pk.0, msg@), scheme_dst(msig_scheme(*ms))));
+}
+
+/// consequence under X-DSEP: the same point cannot be accepted under two labels for one key and message
+pub fn c05_relabelled_multi_signature_is_rejected(a: &MultiSignature, b: &MultiSignature, pk: MultiPublicKey, msg: &[u8])
+    requires
+        msig_point(*a) == msig_point(*b), msig_scheme(*a) != msig_scheme(*b),
+        // X-DSEP: the two schemes hash (their form of) the message to different points
+        hp(scheme_msg(msig_scheme(*a), pk.0, msg@), scheme_dst(msig_scheme(*a))) != hp(scheme_msg(msig_scheme(*b), pk.0, msg@), scheme_dst(msig_scheme(*b))),
+{
+    let va = a.verify(pk, msg);
+    let vb = b.verify(pk, msg);
+    proof {
+        let ma = scheme_msg(msig_scheme(*a), pk.0, msg@);
+        let mb = scheme_msg(msig_scheme(*b), pk.0, msg@);
+        lemma_cv_eq_iff(pk.0, msig_point(*a), ma, scheme_dst(msig_scheme(*a)));
+        lemma_cv_eq_iff(pk.0, msig_point(*b), mb, scheme_dst(msig_scheme(*b)));
+        if va is Ok && vb is Ok {
+            lemma_mul_cancel(hp(ma, scheme_dst(msig_scheme(*a))).dl(), hp(mb, scheme_dst(msig_scheme(*b))).dl(), pk.0.dl());
+        }
+    }
+    assert(!(va is Ok && vb is Ok));
+}
